@@ -140,10 +140,9 @@ def nameOf (parent key : Str) : Str := (replaceAll parent [] key).dropWhile (· 
 `tslist`. -/
 def readGroup [OfNat α 0] (f : File α) (g : List (Entry α)) : Option (List (Series α)) :=
   let names := g.map fun e => nameOf f.path e.key
-  match styleOf f.format with
-  | .byName =>
+  if styleOf f.format = .byName then
     names.mapM fun n => (readNamed f n).map fun tx => (⟨n, tx.1, tx.2⟩ : Series α)
-  | _ =>
+  else
     match readRows f (0 :: g.map fun e => e.idx.getD 0) with
     | some (r0 :: rest) =>
       if rest.length = names.length then some (List.zipWith (fun n row => (⟨n, r0, row⟩ : Series α)) names rest)
@@ -222,6 +221,18 @@ def selectKeys (db : Db α) : Sel → Option (List Str)
   | .names (some ns) => some (listKeys (keysOf db) ns)
   | .inds is => is.mapM fun i => (keysOf db)[i]?
 
+/-- Key resolution of `get(name=…)` / `get(ind=…)`. -/
+def resolve1 (db : Db α) : Sel1 → Except Err Str
+  | .name n =>
+    match getKey (keysOf db) n with
+    | .ok k => .ok k
+    | .error .lookup => .error .lookup
+    | .error .value => .error .value
+  | .ind i =>
+    match (keysOf db)[i]? with
+    | some k => .ok k
+    | none => .error .index
+
 def step [OfNat α 0] (disk : List (File α)) (db : Db α) : Op → Db α × Out α
   | .load path read =>
     match disk.find? fun f => f.path == path with
@@ -244,15 +255,7 @@ def step [OfNat α 0] (disk : List (File α)) (db : Db α) : Op → Db α × Out
       | some (db', out) => (db', .series out)
       | none => (db, .error .io)
   | .get sel store =>
-    let key : Except Err Str := match sel with
-      | .name n => match getKey (keysOf db) n with
-        | .ok k => .ok k
-        | .error .lookup => .error .lookup
-        | .error .value => .error .value
-      | .ind i => match (keysOf db)[i]? with
-        | some k => .ok k
-        | none => .error .index
-    match key with
+    match resolve1 db sel with
     | .error e => (db, .error e)
     | .ok k =>
       match (findEntry db k).bind (·.cache) with
